@@ -78,7 +78,12 @@ pub struct Generated {
 
 /// Generate and parse; `Err` carries a short classification.
 pub fn generate_model(reg: &PortableRegistry, d: &SDesc) -> (Result<Generated, String>, Vec<Event>) {
-    let settings = d.build();
+    // building the settings goes through the public builder API too: a rule or registration the
+    // descriptor knows to be valid must not be refused
+    let settings = match guard(|| d.build()) {
+        Ok(s) => s,
+        Err(p) => return (Err(format!("settings-refused:{}", p.msg.chars().take(160).collect::<String>())), Vec::new()),
+    };
     let run = generate(reg, &settings);
     let r = match run.outcome {
         GenOutcome::Ok(ts) => match CModel::parse(ts.clone()) {
